@@ -1,28 +1,37 @@
 """Extraction of the identifier byte-stream model (DESIGN A7) from HashComputer.update,
-HashComputer.compute and ConfigInformation.identifiers.
+HashComputer.compute and ConfigInformation.identifiers -- as *path traces* of the CFG, so that the
+model does not depend on how the control structure is written (guard clauses vs else, De Morgan,
+elif vs separate ifs, helper extraction, local names).
 
-A model is a tree of terms, independent of local names and statement layout:
-  ["emit", ["tag", NAME, HEX]]                 a tag byte resolved by value
-  ["emit", ["pack", FMT, EXPR]]                struct.pack
-  ["emit", ["text", ENCODING, EXPR]]           str.encode
-  ["emit", ["bytes", EXPR]]                    anything else fed to the hasher
-  ["rec", EXPR]                                recursive update of a value
-  ["sort", EXPR, KEY]                          in-place sort of a local sequence
-  ["for", ITER, BODY]  ["if", COND, THEN, ELSE]  ["continue"] ["return", EXPR] ["raise", NAME]
-  ["call", EXPR]                               any other call statement (not logging)
-EXPR are canonical expression texts (locals substituted/renamed by binding site).
+A trace is the list of items met on one path (loops entered at most once, hierarchically):
+  ["emit", ["tag", NAME, HEX]]          a tag byte resolved by value
+  ["emit", ["pack", FMT, EXPR]]         struct.pack
+  ["emit", ["text", ENCODING, EXPR]]    str.encode
+  ["emit", ["bytes", EXPR]]             anything else fed to the hasher
+  ["rec", EXPR, KW?]                    recursive update of a value
+  ["sort", EXPR, KEY]                   in-place sort of a local sequence
+  ["call", EXPR]                        any other call statement (not logging)
+  ["if", ATOM, POLARITY]                an atomic condition in canonical positive form, with the branch taken
+  ["loop", ITER, [TRACE...]]            the distinct traces of one iteration of a loop over ITER
+  ["end", "raise:<Name>" | "return <expr>"]   only when the path does not simply reach the end
+EXPR / ATOM are canonical texts (locals substituted by their definitions, binding sites numbered).
+
+What other rules decide semantically is left out of the model: the skip logic inside the argument
+loop (decision table C02.R2 / C03.R10) and cache guards (C01.R3).
 """
 
 from __future__ import annotations
 
 import ast
 import json
-from typing import Dict, List, Optional, Tuple
+from typing import Dict, List, Optional
 
 from .astq import dotted, is_logging_call, src, walk_local
 from .cfg import CFG, Node
 from .dataflow import ReachingDefs, renumber
 from .loader import Func, Tree, Undecided
+
+CACHE_WORDS = ("_sealed", "_full_identifier", "_raw_identifier")
 
 
 def class_bytes_constants(cls_node: ast.ClassDef) -> Dict[str, bytes]:
@@ -43,9 +52,7 @@ class Extractor:
         self.cfg = CFG(fn.node)
         self.rd = ReachingDefs(self.cfg)
         self.unknown_helpers: List[str] = []
-        # local names bound to a HashComputer instance (HashComputer.compute uses `self = HashComputer(...)`)
         self.computers = {"self"}
-        # local names bound to a hashlib object
         self.hashers = set()
         for n in self.cfg.live:
             for d in self.rd.gen[n.id]:
@@ -55,12 +62,7 @@ class Extractor:
                         self.hashers.add(d.name)
                     if dn.split(".")[-1] == tagclass:
                         self.computers.add(d.name)
-
-    def node_of(self, astnode) -> Node:
-        ns = self.cfg.nodes_of(astnode)
-        if not ns:
-            raise Undecided(f"statement at line {getattr(astnode, 'lineno', '?')} of {self.fn.key} is unreachable in the CFG")
-        return ns[0]
+        self.paths = 0
 
     def canon(self, e, at: Node) -> str:
         return self.rd.acanon(e, at)
@@ -76,8 +78,12 @@ class Extractor:
                 return True
         return False
 
+    def is_rec(self, c: ast.Call) -> bool:
+        d = dotted(c.func) or ""
+        parts = d.split(".")
+        return len(parts) == 2 and parts[0] in self.computers and parts[1] == "update"
+
     def describe(self, arg, at: Node):
-        # tag constant?
         d = dotted(arg)
         if d:
             parts = d.split(".")
@@ -85,6 +91,12 @@ class Extractor:
                 return ["tag", parts[1], self.tags[parts[1]].hex()]
         if isinstance(arg, ast.Constant) and isinstance(arg.value, bytes):
             return ["tag", "<literal>", arg.value.hex()]
+        if isinstance(arg, ast.Name):
+            dd = self.rd.unique(arg.id, at)
+            if dd is not None and dd.kind == "assign" and dd.node is not at and isinstance(dd.value, (ast.Call, ast.Attribute)):
+                inner = self.describe(dd.value, dd.node)
+                if inner[0] != "bytes":
+                    return inner
         if isinstance(arg, ast.Call):
             dn = dotted(arg.func) or ""
             if dn == "struct.pack" and arg.args and isinstance(arg.args[0], ast.Constant):
@@ -102,51 +114,22 @@ class Extractor:
                 return ["text", enc, self.canon(arg.func.value, at)]
         return ["bytes", self.canon(arg, at)]
 
-    def block(self, stmts) -> list:
-        out = []
-        for s in stmts:
-            out += self.stmt(s)
-        return out
-
-    def stmt(self, s) -> list:
-        if isinstance(s, ast.If):
-            at = self.node_of(self._first_atom(s.test))
-            then = self.block(s.body)
-            els = self.block(s.orelse)
-            if not then and not els:
-                return []
-            return [["if", self.canon_cond(s.test), then, els]]
-        if isinstance(s, (ast.For, ast.AsyncFor)):
-            at = self.node_of(s.iter)
-            body = self.block(s.body)
-            if not body:
-                return []
-            return [["for", self.canon(s.iter, at), body]]
-        if isinstance(s, (ast.With, ast.AsyncWith)):
-            return self.block(s.body)
-        if isinstance(s, ast.Try) and len(s.handlers) == 1 and isinstance(s.handlers[0].type, ast.Name) and s.handlers[0].type.id.startswith("__InlineReturn"):
-            return self.block(s.body)
-        if isinstance(s, ast.Try):
-            out = self.block(s.body)
-            for h in s.handlers:
-                hb = self.block(h.body)
-                if hb:
-                    out.append(["except", src(h.type) if h.type else "", hb])
-            out += self.block(s.orelse) + self.block(s.finalbody)
-            return out
+    def items(self, n: Node) -> list:
+        if n.kind != "stmt":
+            return []
+        s = n.ast
         if isinstance(s, ast.Expr) and isinstance(s.value, ast.Call):
             c = s.value
-            at = self.node_of(c)
             if is_logging_call(c):
                 return []
             d = dotted(c.func) or ""
             if self.is_sink(c):
                 if len(c.args) != 1:
                     raise Undecided(f"hasher sink with {len(c.args)} arguments at {self.fn.key}:{s.lineno}")
-                return [["emit", self.describe(c.args[0], at)]]
-            if len(d.split(".")) == 2 and d.split(".")[0] in self.computers and d.split(".")[1] == "update":
+                return [["emit", self.describe(c.args[0], n)]]
+            if self.is_rec(c):
                 kw = {k.arg: src(k.value) for k in c.keywords}
-                t = ["rec", self.canon(c.args[0], at)]
+                t = ["rec", self.canon(c.args[0], n)]
                 if kw:
                     t.append(kw)
                 return [t]
@@ -154,63 +137,114 @@ class Extractor:
                 key = ""
                 for k in c.keywords:
                     if k.arg == "key":
-                        key = self.canon(k.value, at)
+                        key = self.canon(k.value, n)
                     if k.arg == "reverse":
                         key += f" reverse={src(k.value)}"
-                return [["sort", self.canon(c.func.value, at), key]]
+                return [["sort", self.canon(c.func.value, n), key]]
+            if isinstance(c.func, ast.Attribute) and c.func.attr in ("append", "add", "extend", "update", "setdefault"):
+                return []  # building a local container: looked through by canonicalisation of its uses
             if d.startswith("self.") and d.count(".") == 1:
                 self.unknown_helpers.append(d)
-            return [["call", self.canon(c, at)]]
-        if isinstance(s, ast.Expr):
-            return []
-        if isinstance(s, ast.Return):
-            at = self.node_of(s.value) if s.value is not None else None
-            return [["return", self.canon(s.value, at) if s.value is not None else ""]]
-        if isinstance(s, ast.Continue):
-            return [["continue"]]
-        if isinstance(s, ast.Break):
-            return [["break"]]
-        if isinstance(s, ast.Raise) and isinstance(s.exc, ast.Name) and s.exc.id.startswith("__InlineReturn"):
-            return [["return", ""]]
-        if isinstance(s, ast.Raise):
-            e = s.exc.func if isinstance(s.exc, ast.Call) else s.exc
-            return [["raise", dotted(e) or "" if e is not None else ""]]
+            return [["call", self.canon(c, n)]]
         if isinstance(s, (ast.Assign, ast.AnnAssign, ast.AugAssign)):
-            # helper calls hidden in assignments are inlined by canonicalisation; calls with hashing
-            # effects in an assignment are not a shape we model
             for c in walk_local(s):
-                if isinstance(c, ast.Call) and (self.is_sink(c) or ((dotted(c.func) or "").split(".")[-1] == "update" and (dotted(c.func) or "").split(".")[0] in self.computers and (dotted(c.func) or "").count(".") == 1)):
+                if isinstance(c, ast.Call) and (self.is_sink(c) or self.is_rec(c)):
                     raise Undecided(f"hasher call inside an assignment at {self.fn.key}:{s.lineno}")
-            return []
-        if isinstance(s, (ast.Pass, ast.Import, ast.ImportFrom, ast.Global, ast.Nonlocal, ast.Assert)):
-            return []
-        if isinstance(s, (ast.FunctionDef, ast.AsyncFunctionDef, ast.ClassDef)):
-            return []
-        raise Undecided(f"unmodelled statement {type(s).__name__} at {self.fn.key}:{s.lineno}")
+        return []
 
-    def _first_atom(self, e):
-        while True:
-            if isinstance(e, ast.BoolOp):
-                e = e.values[0]
-            elif isinstance(e, ast.UnaryOp) and isinstance(e.op, ast.Not):
-                e = e.operand
-            else:
-                return e
+    def abstracted(self, n: Node, in_arg_loop: bool) -> bool:
+        if in_arg_loop:
+            return True
+        t = self.rd.canon(n.ast, n)
+        if any(w in t for w in CACHE_WORDS):
+            return True
+        if "isEnabledFor" in t:
+            return True
+        if isinstance(n.ast, ast.Name) and n.ast.id in self.rd.params and n.ast.id.startswith("only"):
+            return True
+        return False
 
-    def canon_cond(self, e) -> str:
-        """Canonical text of a (possibly compound) condition; each atom canonicalised at its node"""
-        if isinstance(e, ast.BoolOp):
-            op = " and " if isinstance(e.op, ast.And) else " or "
-            return "(" + op.join(self.canon_cond(v) for v in e.values) + ")"
-        if isinstance(e, ast.UnaryOp) and isinstance(e.op, ast.Not):
-            return "not " + self.canon_cond(e.operand)
-        if isinstance(e, ast.Constant):
-            return src(e)
-        return normalise_atom(self.canon(e, self.node_of(e)))
+    def traces(self, start: Node, head: Optional[Node] = None, in_arg_loop=False, limit=4000) -> List[list]:
+        g = self.cfg
+        out: List[str] = []
+        seen_out = set()
+
+        def emit(trace):
+            self.paths += 1
+            if self.paths > limit:
+                raise Undecided(f"more than {limit} paths in {self.fn.key}")
+            k = json.dumps(trace, ensure_ascii=False)
+            if k not in seen_out:
+                seen_out.add(k)
+                out.append(k)
+
+        def walk(n: Node, trace: list, visited: frozenset):
+            while True:
+                if n is g.exit:
+                    emit(trace)
+                    return
+                if n is g.raise_:
+                    emit(trace + [["end", "raise"]])
+                    return
+                if head is not None and n is head:
+                    emit(trace)
+                    return
+                if n.id in visited and n.kind in ("for", "join"):
+                    emit(trace + [["end", "loop-back"]])
+                    return
+                if n.kind == "for":
+                    it = self.canon(n.ast.iter, n)
+                    is_arg = ".arguments" in self.rd.canon(n.ast.iter, n)
+                    body_start = [m for m, l in n.succ if l == "loop"][0]
+                    sub = self.traces(body_start, head=n, in_arg_loop=in_arg_loop or is_arg)
+                    sub = [t for t in sub if t]
+                    if sub:
+                        trace = trace + [["loop", it, sorted(sub, key=lambda t: json.dumps(t, ensure_ascii=False))]]
+                    visited = visited | {n.id}
+                    n = [m for m, l in n.succ if l == "done"][0]
+                    continue
+                if n.kind == "test":
+                    visited2 = visited | {n.id}
+                    skip = self.abstracted(n, in_arg_loop)
+                    text = None if skip else self.canon(n.ast, n)
+                    for m, l in n.succ:
+                        if l in (True, False):
+                            walk(m, trace if skip else trace + [["if", text, l]], visited2)
+                    return
+                if n.kind == "stmt":
+                    if isinstance(n.ast, ast.Raise):
+                        name = ""
+                        if n.ast.exc is not None:
+                            e = n.ast.exc.func if isinstance(n.ast.exc, ast.Call) else n.ast.exc
+                            name = dotted(e) or ""
+                        if not name.startswith("__InlineReturn"):
+                            emit(trace + [["end", f"raise:{name}"]])
+                            return
+                    if isinstance(n.ast, ast.Return) and n.ast.value is not None and head is None:
+                        v = self.rd.canon(n.ast.value, n)
+                        if not any(w in v for w in ("raw_identifier", "full_identifier")):
+                            trace = trace + [["end", "return " + self.canon(n.ast.value, n)]]
+                    trace = trace + self.items(n)
+                explicit = all(l == "exc" for _, l in n.succ)
+                nxt = [(m, l) for m, l in n.succ if l != "exc" or explicit]
+                if not nxt:
+                    emit(trace)
+                    return
+                if len(nxt) == 1:
+                    visited = visited | {n.id}
+                    n = nxt[0][0]
+                    continue
+                visited2 = visited | {n.id}
+                for m, l in nxt:
+                    walk(m, trace, visited2)
+                return
+
+        walk(start, [], frozenset())
+        return [json.loads(k) for k in out]
 
 
-def normalise_atom(text: str) -> str:
-    return text
+def _renum(obj):
+    return json.loads(renumber(json.dumps(obj, ensure_ascii=False)))
 
 
 def kind_of(cond: str) -> str:
@@ -227,76 +261,43 @@ def extract_update(tree: Tree) -> dict:
     tags = class_bytes_constants(cls.node)
     fn = tree.func("core.objects", "HashComputer.update")
     ex = Extractor(tree, fn, tags)
-    body = [s for s in fn.node.body if not (isinstance(s, ast.Expr) and isinstance(s.value, ast.Constant))]
-    branches: List[Tuple[str, list]] = []
-    prelude = []
-    chain = None
-    for s in body:
-        if isinstance(s, ast.If) and chain is None:
-            chain = s
-        elif chain is None:
-            prelude += ex.stmt(s)
-        else:
-            raise Undecided("HashComputer.update: statements after the value-kind dispatch chain")
-    if chain is None:
-        raise Undecided("HashComputer.update: no isinstance dispatch chain found (table dispatch is not modelled)")
-    s = chain
-    while True:
-        cond = ex.canon_cond(s.test)
-        branches.append((kind_of(cond), ex.block(s.body)))
-        if len(s.orelse) == 1 and isinstance(s.orelse[0], ast.If):
-            s = s.orelse[0]
-            continue
-        if s.orelse:
-            branches.append(("else", ex.block(s.orelse)))
-        break
-    model = {
-        "tags": {k: v.hex() for k, v in sorted(tags.items())},
-        "prelude": prelude,
-        "branches": [[k, json.loads(renumber(json.dumps(t, ensure_ascii=False)))] for k, t in branches],
-    }
-    return {"model": model, "unknown_helpers": ex.unknown_helpers, "extractor": ex, "raw_branches": branches}
+    traces = ex.traces(ex.cfg.entry)
+    kinds: List[str] = []
+    groups: Dict[str, List[list]] = {}
+    for t in traces:
+        i = 0
+        kind = "else"
+        while i < len(t) and t[i][0] == "if" and (kind_of(t[i][1])[0] != "?"):
+            k = kind_of(t[i][1])
+            if k not in kinds:
+                kinds.append(k)
+            if t[i][2] is True:
+                kind = k
+                i += 1
+                break
+            i += 1
+        groups.setdefault(kind, []).append(t[i:])
+    if not kinds:
+        raise Undecided("HashComputer.update: no value-kind dispatch (isinstance chain on the value) found")
+    order = kinds + (["else"] if "else" in groups else [])
+    branches = []
+    for k in order:
+        ts = sorted((_renum(t) for t in groups.get(k, [])), key=lambda t: json.dumps(t, ensure_ascii=False))
+        branches.append([k, ts])
+    model = {"tags": {k: v.hex() for k, v in sorted(tags.items())}, "branches": branches}
+    return {"model": model, "unknown_helpers": ex.unknown_helpers, "extractor": ex}
 
 
 def extract_fn(tree: Tree, modname: str, qual: str, tags) -> dict:
     fn = tree.func(modname, qual)
     ex = Extractor(tree, fn, tags)
-    body = [s for s in fn.node.body if not (isinstance(s, ast.Expr) and isinstance(s.value, ast.Constant))]
-    terms = ex.block(body)
-    return {"terms": json.loads(renumber(json.dumps(terms, ensure_ascii=False))), "raw": terms, "unknown_helpers": ex.unknown_helpers, "extractor": ex}
-
-
-def abstract_decisions(terms, in_arg_loop=False):
-    """Remove from a term list what other rules decide semantically, so that the wire model does
-    not freeze it as text: (a) the skip logic of the argument loop (`if ...: continue`, decided by
-    the C02.R2 decision table) and (b) cache guards (conditions on _sealed / cached identifiers and
-    early returns of cached values, decided by C01.R3)."""
-    out = []
-    for t in terms:
-        if t[0] == "if":
-            cond = t[1]
-            then = abstract_decisions(t[2], in_arg_loop)
-            els = abstract_decisions(t[3], in_arg_loop)
-            if in_arg_loop and not then and not els:
-                continue
-            if any(k in cond for k in ("_sealed", "_full_identifier", "_raw_identifier")):
-                if not then and not els:
-                    continue
-                out.append(["if", "<cache-guard>", then, els])
-                continue
-            if not then and not els:
-                continue
-            out.append(["if", cond, then, els])
-        elif t[0] == "for":
-            is_arg = ".arguments" in t[1]
-            out.append(["for", t[1], abstract_decisions(t[2], in_arg_loop or is_arg)])
-        elif t[0] == "continue" and in_arg_loop:
-            continue
-        elif t[0] == "return" and any(k in (t[1] or "") for k in ("_raw_identifier", "_full_identifier", "raw_identifier", "full_identifier")):
-            continue
-        else:
-            out.append(t)
-    return out
+    traces = ex.traces(ex.cfg.entry)
+    ts = sorted((_renum(t) for t in traces if t), key=lambda t: json.dumps(t, ensure_ascii=False))
+    uniq = []
+    for t in ts:
+        if t not in uniq:
+            uniq.append(t)
+    return {"terms": uniq, "unknown_helpers": ex.unknown_helpers, "extractor": ex}
 
 
 def full_model(tree: Tree) -> dict:
@@ -304,34 +305,39 @@ def full_model(tree: Tree) -> dict:
     tags = {k: bytes.fromhex(v) for k, v in up["model"]["tags"].items()}
     ids = extract_fn(tree, "core.objects", "ConfigInformation.identifiers", tags)
     comp = extract_fn(tree, "core.objects", "HashComputer.compute", tags)
-
-    def norm(raw):
-        return json.loads(renumber(json.dumps(abstract_decisions(raw), ensure_ascii=False)))
-
-    model = dict(up["model"])
-    model["branches"] = [[k, norm(t)] for k, t in up["raw_branches"]]
     return {
-        "update": model,
-        "identifiers": norm(ids["raw"]),
-        "compute": norm(comp["raw"]),
+        "update": up["model"],
+        "identifiers": ids["terms"],
+        "compute": comp["terms"],
         "_unknown_helpers": up["unknown_helpers"] + ids["unknown_helpers"] + comp["unknown_helpers"],
     }
 
 
+# ---------------------------------------------------------------- queries on traces
+
+
+def walk_items(trace, pred=None):
+    for it in trace:
+        if pred is None or pred(it):
+            yield it
+        if it and it[0] == "loop":
+            for sub in it[2]:
+                yield from walk_items(sub, pred)
+
+
+def emits(trace) -> list:
+    return [it for it in walk_items(trace, lambda x: x[0] in ("emit", "rec"))]
+
+
+def loops(trace) -> list:
+    return [it for it in walk_items(trace, lambda x: x[0] == "loop")]
+
+
 def find_terms(terms, pred, path=()):
-    """Depth-first iteration over (path, term)"""
     for i, t in enumerate(terms):
-        if pred(t):
-            yield path + (i,), t
-        if t and t[0] == "if":
-            yield from find_terms(t[2], pred, path + (i, "then"))
-            yield from find_terms(t[3], pred, path + (i, "else"))
-        elif t and t[0] == "for":
-            yield from find_terms(t[2], pred, path + (i, "body"))
-        elif t and t[0] == "except":
-            yield from find_terms(t[2], pred, path + (i, "handler"))
+        for it in walk_items(t, pred):
+            yield path + (i,), it
 
 
 def flat_emits(terms) -> list:
-    """All emit/rec terms in order, ignoring control structure"""
-    return [t for _, t in find_terms(terms, lambda t: t and t[0] in ("emit", "rec"))]
+    return [it for t in terms for it in emits(t)]
